@@ -3,7 +3,7 @@ import MythVerif.Proofs.WsQueueTsoTac
 namespace MythVerif.WsqTso
 open MythVerif.Wsq
 
-set_option maxHeartbeats 1000000 in
+set_option maxHeartbeats 4000000 in
 theorem o_pus (s s' : St) (e off) : Inv s → s.opc = .pus e off → stepO s = some s' → Inv s' := by
   intro h heq hs
   have hv := rc1_viewTop _ _ _ _ _ _ _ (h.pus e off heq)
@@ -13,7 +13,7 @@ theorem o_pus (s s' : St) (e off) : Inv s → s.opc = .pus e off → stepO s = s
   simp only [heq, ownerLocked, carry, resetting, ownerFlight] at *
   tso_finish
 
-set_option maxHeartbeats 1000000 in
+set_option maxHeartbeats 4000000 in
 theorem o_puv (s s' : St) (e off) : Inv s → s.opc = .puv e off → stepO s = some s' → Inv s' := by
   intro h heq hs
   have hv := rc2_viewTop _ _ _ _ _ _ _ (h.puv e off heq)
@@ -24,7 +24,7 @@ theorem o_puv (s s' : St) (e off) : Inv s → s.opc = .puv e off → stepO s = s
   simp only [heq, ownerLocked, carry, resetting, ownerFlight] at *
   tso_finish
 
-set_option maxHeartbeats 1000000 in
+set_option maxHeartbeats 4000000 in
 theorem o_pux (s s' : St) (e t) : Inv s → s.opc = .pux e t → stepO s = some s' → Inv s' := by
   intro h heq hs
   have hcfg := h.cfg
